@@ -610,3 +610,173 @@ def unit_new(layout, terms_kind="dict", validate=False, timeout_ms=20000):
     r = run_unit(nm, harness, functions=[(MODULE, "NumberOrderedForm.__new__")], timeout_ms=timeout_ms)
     r.bounded.append(f"operator classes {list(layout)}, two terms")
     return r
+
+
+# ---- validators ----------------------------------------------------------------------------------------
+
+VALIDATOR_LAYOUTS = {
+    "canonical": [("BosonOp", "a", True), ("BosonOp", "b", True), ("LadderOp", "l", True), ("SigmaMinus", "s", True), ("FermionOp", "c", True)],
+    "empty": [],
+    "names-unsorted": [("BosonOp", "b", True), ("BosonOp", "a", True)],
+    "classes-unsorted": [("FermionOp", "c", True), ("BosonOp", "a", True)],
+    "spin-before-ladder": [("SigmaMinus", "s", True), ("LadderOp", "l", True)],
+    "creation-operator": [("BosonOp", "a", True), ("FermionOp", "c", False)],
+    "foreign-class": [("BosonOp", "a", True), ("Symbol", "x", True)],
+    "foreign-and-creation": [("Symbol", "x", False), ("BosonOp", "a", False)],
+}
+
+
+def unit_validate_operators(layout_name, timeout_ms=10000):
+    """NumberOrderedForm._validate_operators: accepts exactly the lists of annihilation generators (BosonOp, LadderOp, SigmaMinus, FermionOp) sorted by (class rank in this order, name) -
+    the canonical operator order every other NOF contract assumes; TypeError for a foreign class (checked first), ValueError for a creation operator or a wrong order."""
+    node = frontend.find(MODULE, "NumberOrderedForm._validate_operators")
+    lay = VALIDATOR_LAYOUTS[layout_name]
+
+    def harness(eng):
+        class Ty(TypeObj):
+            def m_binop(s, e, op, other, reflected):
+                if isinstance(op, ast.Eq):
+                    return isinstance(other, TypeObj) and other.name == s.name
+                return NotImplemented
+        types = {n: Ty(n) for n in ("BosonOp", "LadderOp", "SigmaMinus", "FermionOp", "Symbol")}
+        ops = STup([Op(c, n, a) for c, n, a in lay], None, True)
+        eng.globals.update({"generator_types": STup([types[n] for n in ("BosonOp", "LadderOp", "SigmaMinus", "FermionOp")]),
+                            "type": Builtin("type", lambda e, x: types[x.cls]), "str": Builtin("str", lambda e, x: x)})
+        raised = None
+        try:
+            eng.call(Closure(node, Env(None, {}), "_validate_operators"), [ops], {})
+        except PyRaise as pr:
+            raised = pr.exc.cls
+        rank = {"BosonOp": 0, "LadderOp": 1, "SigmaMinus": 2, "FermionOp": 3}
+        if any(c not in rank for c, _, _ in lay):
+            want = "TypeError"
+        elif not all(a for _, _, a in lay):
+            want = "ValueError"
+        elif [(rank[c], n) for c, n, _ in lay] != sorted((rank[c], n) for c, n, _ in lay):
+            want = "ValueError"
+        else:
+            want = None
+        eng.oblige("accepts-exactly-canonically-ordered-annihilation-generators", z3.BoolVal(raised == want), detail=f"raised {raised}, expected {want}")
+    return run_unit(f"number_ordered_form:_validate_operators[{layout_name}]", harness, functions=[(MODULE, "NumberOrderedForm._validate_operators")], timeout_ms=timeout_ms)
+
+
+def unit_validate_terms(defect, timeout_ms=10000):
+    """NumberOrderedForm._validate_terms: defect: none | length | non-integer-power | non-commutative-coefficient.  ValueError for a powers tuple of the wrong length or a coefficient that
+    still contains operators, TypeError for a non-integer power; silent otherwise."""
+    node = frontend.find(MODULE, "NumberOrderedForm._validate_terms")
+
+    def harness(eng):
+        class P(Model):
+            def __init__(s, integer):
+                s.integer = integer
+
+            def m_getattr(s, e, name):
+                if name == "is_integer":
+                    return s.integer
+                raise Unsupported(f"power.{name}")
+
+        class C(Model):
+            def __init__(s, comm):
+                s.comm = comm
+
+            def m_getattr(s, e, name):
+                if name == "is_commutative":
+                    return s.comm
+                raise Unsupported(f"coefficient.{name}")
+        ops = STup([Op("BosonOp", "a"), Op("FermionOp", "c")], None, True)
+        t_ok = STup([STup([P(True), P(True)]), C(True)])
+        bad = {"none": t_ok, "length": STup([STup([P(True)]), C(True)]), "non-integer-power": STup([STup([P(True), P(False)]), C(True)]),
+               "non-commutative-coefficient": STup([STup([P(True), P(True)]), C(False)])}[defect]
+        raised = None
+        try:
+            eng.call(Closure(node, Env(None, {}), "_validate_terms"), [STup([t_ok, bad]), ops], {})
+        except PyRaise as pr:
+            raised = pr.exc.cls
+        want = {"none": None, "length": "ValueError", "non-integer-power": "TypeError", "non-commutative-coefficient": "ValueError"}[defect]
+        eng.oblige("rejects-exactly-malformed-terms-with-the-documented-exception", z3.BoolVal(raised == want), detail=f"raised {raised}, expected {want}")
+    return run_unit(f"number_ordered_form:_validate_terms[{defect}]", harness, functions=[(MODULE, "NumberOrderedForm._validate_terms")], timeout_ms=timeout_ms)
+
+
+# ---- find_operators ------------------------------------------------------------------------------------
+
+def unit_find_operators(case="mixed", timeout_ms=10000):
+    """find_operators(expr): the annihilation generators of every operator atom of expr.doit() - one per (class, name), whatever form the atom has (creation operator, sigma_x/y/z, both a and a^+) -
+    plus LadderOp(name) for number operators of ladder operators, sorted by (class rank BosonOp < LadderOp < SigmaMinus < FermionOp, name): exactly the order _validate_operators accepts."""
+    node = frontend.find(MODULE, "find_operators")
+
+    def harness(eng):
+        class G(TypeObj):
+            def m_binop(s, e, op, other, reflected):
+                if isinstance(op, ast.Eq):
+                    return isinstance(other, TypeObj) and other.name == s.name
+                return NotImplemented
+
+            def m_call(s, e, args, kwargs):
+                return Op(s.name, args[0])
+        gens = {n: G(n) for n in ("BosonOp", "LadderOp", "SigmaMinus", "FermionOp")}
+
+        class Atom(Model):
+            def __init__(s, name, arg_cls=None):
+                s.name, s.arg_cls = name, arg_cls
+
+            def m_getattr(s, e, attr):
+                if attr == "name":
+                    return s.name
+                if attr == "args":
+                    class A(Model):
+                        def m_getattr(s2, e2, a2):
+                            if a2 == "name":
+                                return s.arg_cls
+                            raise Unsupported("arg attr")
+                    return STup([T("op"), A()])
+                raise Unsupported(f"atom.{attr}")
+        cases = {
+            "mixed": {"BosonOp": ["b", "a", "a"], "LadderOp": [], "SigmaOpBase": ["s", "s"], "FermionOp": ["d", "c"], "NumberOperator": [("l", "LadderOp"), ("a", "BosonOp"), ("k", "LadderOp")]},
+            "ladder-both-ways": {"BosonOp": [], "LadderOp": ["l"], "SigmaOpBase": [], "FermionOp": [], "NumberOperator": [("l", "LadderOp")]},
+            "none": {"BosonOp": [], "LadderOp": [], "SigmaOpBase": [], "FermionOp": [], "NumberOperator": []},
+        }[case]
+        doits = []
+
+        class Ex(Model):
+            def __init__(s, done=False):
+                s.done = done
+
+            def m_getattr(s, e, attr):
+                if attr == "doit":
+                    def doit(e_):
+                        doits.append(1)
+                        return Ex(True)
+                    return Builtin("doit", doit)
+                if attr == "atoms":
+                    if not s.done:
+                        raise Unsupported("atoms of the expression before doit()")
+                    return Builtin("atoms", lambda e_, cls_: STup([Atom(*((x,) if isinstance(x, str) else x)) for x in cases[cls_.name]], None, True))
+                raise Unsupported(f"expr.{attr}")
+
+        class SetM(Model):
+            def m_getattr(s, e, attr):
+                if attr == "union":
+                    def union(e_, *its):
+                        out = []
+                        for it in its:
+                            for x in e_.as_seq(it).items:
+                                if not any((x.cls, x.name) == (y.cls, y.name) for y in out):
+                                    out.append(x)
+                        return STup(out, None, True)
+                    return Builtin("union", union)
+                raise Unsupported(f"set.{attr}")
+        eng.globals.update({"operator_types": STup([TypeObj("BosonOp"), TypeObj("LadderOp"), TypeObj("SigmaOpBase"), TypeObj("FermionOp")]),
+                            "generator_types": STup([gens[n] for n in ("BosonOp", "LadderOp", "SigmaMinus", "FermionOp")]),
+                            "NumberOperator": TypeObj("NumberOperator"), "LadderOp": gens["LadderOp"], "set": Builtin("set", lambda e: SetM()),
+                            "type": Builtin("type", lambda e, x: gens[x.cls]), "str": Builtin("str", lambda e, x: x)})
+        res = eng.call(Closure(node, Env(None, {}), "find_operators"), [Ex()], {})
+        got = [(x.cls, x.name) for x in eng.as_seq(res).items]
+        rank = {"BosonOp": 0, "LadderOp": 1, "SigmaMinus": 2, "FermionOp": 3}
+        want = set()
+        for cls_, gen in zip(("BosonOp", "LadderOp", "SigmaOpBase", "FermionOp"), ("BosonOp", "LadderOp", "SigmaMinus", "FermionOp")):
+            want |= {(gen, n) for n in cases[cls_]}
+        want |= {("LadderOp", n) for n, c in cases["NumberOperator"] if c == "LadderOp"}
+        want = sorted(want, key=lambda x: (rank[x[0]], x[1]))
+        eng.oblige("result-is-the-canonically-sorted-list-of-the-distinct-generators", z3.BoolVal(got == want), detail=f"got {got}, want {want}")
+        eng.oblige("atoms-are-read-from-expr.doit()", z3.BoolVal(len(doits) == 1))
+    return run_unit(f"number_ordered_form:find_operators[{case}]", harness, functions=[(MODULE, "find_operators")], timeout_ms=timeout_ms)
